@@ -107,6 +107,11 @@ def exc_key(exc):
     return 'exception/%s@%s' % (type(exc).__name__, where)
 
 
+def gen_skip():
+    from . import gen
+    return gen.Skip
+
+
 def run_cases(mod, cases, ctx):
     """Generic shard body: call mod.run_case(case, ctx, acc) for every case."""
     acc = Acc()
@@ -114,6 +119,9 @@ def run_cases(mod, cases, ctx):
         try:
             with ctx.horizon():
                 mod.run_case(case, ctx, acc)
+        except gen_skip() as exc:
+            acc.skipped += 1
+            acc.extra['skipped_' + str(exc)] += 1
         except CaseTimeout as exc:
             acc.n += 1
             acc.viols.append(Viol(case, 'horizon', 'timeout', str(exc)))
